@@ -126,6 +126,7 @@ Lossless == Done => LET d == Decode(db) IN
 MilpOptimal == Done /\ enc = "milp" =>
    /\ ObjText(db, m) = Opt(R)
    /\ StemUniform(db, R) /\ Stable(R, LevelsOf(db, R))
+   /\ NoSwapImproves(R, LevelsOf(db, R))                      \* L7
    /\ ObjText(db, m) >= Obj(R, FcfsLevels(R))
    /\ (~Knotted(R) => \A i \in 1..N : db[i] \in {"(", ")", Dot})
 
